@@ -90,6 +90,32 @@ macro_rules! define_hasher {
                 *self = Self::default();
             }
         }
+
+        /// Verification hook (only with `--cfg cryptocorrosion_verif`): read and overwrite
+        /// the private state so that arbitrary chaining values and byte counts can be entered.
+        #[cfg(cryptocorrosion_verif)]
+        impl $name {
+            /// (chaining value, `datalen`, buffer content, buffer position); buffer bytes at
+            /// and beyond the position are reported as zero.
+            pub fn verif_get_state(&self) -> ([u8; 128], usize, [u8; 64], usize) {
+                let pos = self.buffer.position();
+                let mut content = [0u8; 64];
+                let zeros = [0u8; 64];
+                let mut b = self.buffer.clone();
+                b.input_block(&zeros[..64 - pos], |blk| content.copy_from_slice(blk));
+                (self.state.finalize(), self.datalen, content, pos)
+            }
+
+            /// Overwrites chaining value and `datalen`; the buffer then holds `buffered`
+            /// (fewer bytes than one block).
+            pub fn verif_set_state(&mut self, cv: [u8; 128], datalen: usize, buffered: &[u8]) {
+                assert!(buffered.len() < 64);
+                self.state = Compressor::new(cv);
+                self.datalen = datalen;
+                self.buffer.reset();
+                self.buffer.input_block(buffered, |_| unreachable!());
+            }
+        }
     };
 }
 
